@@ -369,9 +369,9 @@ func (s *Store[K, V]) GetWithSecodary(key K) (V, bool, error) {
 
 func (s *Store[K, V]) policyNewEntry(hash uint64, shard *Shard[K, V], cost int64, entry *Entry[K, V], fromNVM bool) {
 	verifPoint(vpBeforeEvent)
-	s.writeChan <- WriteBufItem[K, V]{
+	s.sendEvent(WriteBufItem[K, V]{
 		code: NEW, entry: entry, hash: hash, fromNVM: fromNVM, costChange: cost,
-	}
+	})
 }
 
 func (s *Store[K, V]) policyUpdateEntry(entry *Entry[K, V], hash uint64, cost, old int64, reschedule bool) {
@@ -380,9 +380,19 @@ func (s *Store[K, V]) policyUpdateEntry(entry *Entry[K, V], hash uint64, cost, o
 	// so different order still works.
 	costChange := cost - old
 	verifPoint(vpBeforeEvent)
-	s.writeChan <- WriteBufItem[K, V]{
+	s.sendEvent(WriteBufItem[K, V]{
 		entry: entry, code: UPDATE, costChange: costChange, rechedule: reschedule,
 		hash: hash,
+	})
+}
+
+// sendEvent hands an event to the maintenance goroutine. Once the cache is
+// closed nobody receives any more, so a sender must not wait for room in the
+// queue forever.
+func (s *Store[K, V]) sendEvent(item WriteBufItem[K, V]) {
+	select {
+	case s.writeChan <- item:
+	case <-s.ctx.Done():
 	}
 }
 
@@ -518,7 +528,7 @@ func (s *Store[K, V]) Delete(key K) {
 	shard.mu.Unlock()
 	if ok {
 		verifPoint(vpBeforeEvent)
-		s.writeChan <- WriteBufItem[K, V]{entry: entry, code: REMOVE, hash: h}
+		s.sendEvent(WriteBufItem[K, V]{entry: entry, code: REMOVE, hash: h})
 	}
 }
 
@@ -540,7 +550,7 @@ func (s *Store[K, V]) DeleteWithSecondary(key K) error {
 	shard.mu.Unlock()
 	if ok {
 		verifPoint(vpBeforeEvent)
-		s.writeChan <- WriteBufItem[K, V]{entry: entry, code: REMOVE}
+		s.sendEvent(WriteBufItem[K, V]{entry: entry, code: REMOVE})
 	}
 	return nil
 }
@@ -754,7 +764,11 @@ func (s *Store[K, V]) drainWrite() {
 
 	s.writeBuffer = s.writeBuffer[:0]
 	if wait {
-		s.waitChan <- true
+		// the waiter may have left already if the cache was closed meanwhile
+		select {
+		case s.waitChan <- true:
+		case <-s.ctx.Done():
+		}
 	}
 }
 
@@ -981,9 +995,13 @@ func (s *Store[K, V]) Wait() {
 	// marker and return too early, or never get one when two share a batch
 	s.waitMu.Lock()
 	defer s.waitMu.Unlock()
-	s.writeChan <- WriteBufItem[K, V]{code: WAIT}
+	s.sendEvent(WriteBufItem[K, V]{code: WAIT})
 	verifPoint(vpWaitAfterSend)
-	<-s.waitChan
+	// after Close nobody answers any more
+	select {
+	case <-s.waitChan:
+	case <-s.ctx.Done():
+	}
 }
 
 func (s *Store[K, V]) Recover(version uint64, reader io.Reader) error {
